@@ -497,6 +497,53 @@ def nested_helper_edit(res):
     return n
 
 
+def failed_then_corrected(res):
+    """A program that stops in the middle of its trace (a NameError after three operations), is corrected on disk — lines added
+    above and inside — and compiled again in the same process: the MIR, every resolved source reference and the embedded text
+    must be those a new interpreter produces from the corrected file."""
+    tmp = tempfile.mkdtemp(prefix="nvc08c")
+    n = 0
+    try:
+        v1 = ("from nada_dsl import *\n\n\ndef nada_main():\n    p = Party(name='P')\n    a = SecretInteger(Input(name='a', party=p))\n"
+              "    b = a * a\n    c = b + undefined_name\n    return [Output(c, 'o', p)]\n")
+        v2 = ("from nada_dsl import *\n\n# corrected: the missing operand is an input now\n\n\ndef nada_main():\n    p = Party(name='P')\n"
+              "    a = SecretInteger(Input(name='a', party=p))\n    extra = SecretInteger(Input(name='extra', party=p))\n\n    b = a * a\n"
+              "    c = b + extra\n    return [Output(c, 'o', p)]\n")
+        prog, fixed = os.path.join(tmp, "prog.py"), os.path.join(tmp, "prog_v2.txt")
+        for path, text in ((prog, v1), (fixed, v2)):
+            with open(path, "w", encoding="utf-8") as f:
+                f.write(text)
+        for via in ("script", "string"):
+            with open(prog, "w", encoding="utf-8") as f:
+                f.write(v1)
+            hist = fresh_process(via, [prog, f"@write:{prog}={fixed}", prog], tmp)
+            alone = fresh_process(via, [prog], tmp)
+            n += 1
+            a, b = hist[-1], alone[-1]
+            if "harness" in (a.get("err"), b.get("err")):
+                raise RuntimeError(f"fresh process failed: {a.get('msg')} {b.get('msg')}")
+            text = None
+            if ("mir" in a) != ("mir" in b):
+                text = f"after the failed version: {a.get('msg', 'compiled')}; in a new interpreter: {b.get('msg', 'compiled')}"
+            elif "mir" in a:
+                d = cm.first_diff(normalize(cm.canon_mir(a["mir"])), normalize(cm.canon_mir(b["mir"])))
+                if d:
+                    text = f"MIR differs from the one a new interpreter produces from the corrected file: {d}"
+                else:
+                    ra, rb = resolved_refs(a["mir"]), resolved_refs(b["mir"])
+                    bad = next(((x, y) for x, y in zip(ra, rb) if x != y), None)
+                    if bad is not None:
+                        text = f"source reference of {bad[0][:-1]} designates {bad[0][-1]}, in a new interpreter {bad[1][-1]}"
+                    else:
+                        text = source_tables_differ(a["mir"], b["mir"])
+            if text:
+                res.violation({"property": "C08", "kind": "failed-then-corrected", "via": via, "first": v1, "corrected": v2, "text": text},
+                              f"prog.py failed in the middle of its trace, was corrected on disk and compiled again through compile_{via} in the same process: {text}"[:400])
+    finally:
+        shutil.rmtree(tmp, ignore_errors=True)
+    return n
+
+
 def names_of(mir):
     out = set()
     out.update(("input", i["name"]) for i in mir["inputs"])
@@ -555,6 +602,7 @@ def run(res, tier):
     fp["after_unloadable_programs"] = unloadable_then_good(res)
     fp["same_named_helper_orders"] = same_named_helpers(res, tier)
     fp["nested_helper_edits"] = nested_helper_edit(res)
+    fp["failed_then_corrected"] = failed_then_corrected(res)
     for idx, d, combined in diffs[:5]:
         res.broken.append({"decl": "K3 correspondence (history run: model vs real implementation)",
                            "msg": json.dumps(d, default=str)[:500], "history": combined})
@@ -586,6 +634,13 @@ class _Collect:
 
 
 def replay(obj):
+    if obj.get("kind") == "failed-then-corrected":
+        r = _Collect()
+        failed_then_corrected(r)
+        print(r.violations or "ok")
+        if r.violations:
+            print("VIOLATION property=C08 replay=(replayed)")
+        return 1 if r.violations else 0
     if obj.get("kind") == "nested-helper-edit":
         r = _Collect()
         nested_helper_edit(r)
